@@ -601,7 +601,6 @@ func r14ParallelShape(c *core.Ctx, p *load.Program) {
 	}
 }
 
-
 // r14ConditionalMove (R14.6)
 func r14ConditionalMove(c *core.Ctx, p *load.Program) {
 	sh := findKVShape(p)
